@@ -16,13 +16,16 @@
    HeaderChain.WriteHeader; oracle signature chain-op-panics/headers/...), and
    re-importing a known side block whose parent SetHead removed panics in
    insertChain2 (parent.Root() on nil; oracle signature chain-op-panics/insert/...).
-   What is PROVED for all histories is the retrievability half for import-only
-   histories (C03_stored_ancestry_partial).  canon_below and lookup_exact below the
-   head for import-only histories are NOT proved yet (missing: the characterisation
-   of reorg's number->hash writes); they are checked by the direct oracle and the
-   correspondence after every operation. *)
+   What is PROVED for all histories of imports (and of imports + restarts): canon_below
+   (C03_canon_below_imports / _with_reopen), canon_data_present (header, body, receipts, TD of
+   every canonical block up to the head), and the soundness half of lookup_exact (a lookup entry
+   points at a canonical block at or below the head that contains the transaction at that
+   index).  NOT proved: the completeness half of lookup_exact (every transaction of a canonical
+   block has its entry; in the model it additionally needs "no transaction id twice on one
+   chain"), and anything about histories with SetHead or header imports beyond the refutations
+   (checked by the direct oracle and the correspondence after every operation). *)
 From Coq Require Import NArith List.
-From AQ Require Import Chain.Store Chain.ChainSpec Chain.ChainProofs Chain.Crash Chain.ChainReopen Chain.ChainWitness.
+From AQ Require Import Chain.Store Chain.ChainSpec Chain.ChainProofs Chain.Crash Chain.ChainReopen Chain.ChainCanon Chain.ChainWitness.
 Import ListNotations.
 Local Open Scope N_scope.
 
@@ -57,6 +60,53 @@ Theorem C03_block_import_total_refuted :
     fst (step (OpInsert [b] []) s) = SPanic.
 Proof. exact (ex_intro _ wg (ex_intro _ ops_orphan_side (ex_intro _ w6 orphan_side_block_panics))). Qed.
 Print Assumptions C03_block_import_total_refuted.
+
+(* canon_below: every height up to the head maps to the head's ancestor at that height *)
+Theorem C03_canon_below_imports : forall (U : N -> sblock) (g : header),
+  U (h_hash g) = (g, []) -> h_number g = 0 ->
+  forall ops, inserts_only ops -> (forall b, In b (blocks_of ops) -> wf_block U b) ->
+  canon_below (run ops (pre_open g)).
+Proof. exact canon_below_imports. Qed.
+Print Assumptions C03_canon_below_imports.
+
+(* header, body, receipts and total difficulty are retrievable for every canonical block up to the head *)
+Theorem C03_canon_data_present_imports : forall (U : N -> sblock) (g : header),
+  U (h_hash g) = (g, []) -> h_number g = 0 ->
+  forall ops, inserts_only ops -> (forall b, In b (blocks_of ops) -> wf_block U b) ->
+  canon_data_present (run ops (pre_open g)).
+Proof. exact canon_data_present_imports. Qed.
+Print Assumptions C03_canon_data_present_imports.
+
+(* lookup_exact, soundness half: a lookup entry names a canonical block at or below the head
+   whose body holds the transaction at that index.  `_partial`: the completeness half is open. *)
+Theorem C03_lookup_sound_imports_partial : forall (U : N -> sblock) (g : header),
+  U (h_hash g) = (g, []) -> h_number g = 0 ->
+  forall ops, inserts_only ops -> (forall b, In b (blocks_of ops) -> wf_block U b) ->
+  let s := run ops (pre_open g) in
+  forall t h n i, lookup_of (dsk s) t = Some (h, n, i) ->
+    n <= s_num (cur_block s) /\ canon (dsk s) n = h /\
+    exists l, body_of (dsk s) h = Some l /\ nth_error l (N.to_nat i) = Some t.
+Proof. exact lookup_sound_imports. Qed.
+Print Assumptions C03_lookup_sound_imports_partial.
+
+(* the same three with close/reopen anywhere in the history *)
+Theorem C03_canon_below_with_reopen : forall (U : N -> sblock) (g : header),
+  U (h_hash g) = (g, []) -> h_number g = 0 ->
+  forall (d0 : disk), h_hash g <> 0 -> d0 = genesis_disk g ->
+  forall ops, imports_and_reopens ops ->
+  (forall b, In b (blocks_of ops) -> wf_block U b /\ h_hash (b_hdr b) <> 0) ->
+  canon_below (run ops (pre_open g)).
+Proof. exact canon_below_with_reopen. Qed.
+Print Assumptions C03_canon_below_with_reopen.
+
+Theorem C03_canon_data_present_with_reopen : forall (U : N -> sblock) (g : header),
+  U (h_hash g) = (g, []) -> h_number g = 0 ->
+  forall (d0 : disk), h_hash g <> 0 -> d0 = genesis_disk g ->
+  forall ops, imports_and_reopens ops ->
+  (forall b, In b (blocks_of ops) -> wf_block U b /\ h_hash (b_hdr b) <> 0) ->
+  canon_data_present (run ops (pre_open g)).
+Proof. exact canon_data_present_with_reopen. Qed.
+Print Assumptions C03_canon_data_present_with_reopen.
 
 (* import-only histories: the head block and every stored block come with body,
    state and total difficulty, and their stored ancestry reaches genesis one number
